@@ -34,7 +34,7 @@ use crate::pushio::*;
 use crate::*;
 
 pub const PROP: Prop = Prop { name: "C16", gen, run };
-pub const NOPS: usize = 40;
+pub const NOPS: usize = 47;
 
 struct Alpha(Vec<i64>);
 impl Distribution<i64> for Alpha {
@@ -43,7 +43,7 @@ impl Distribution<i64> for Alpha {
     }
 }
 
-fn triple<O>(seed: u64, mk: impl Fn() -> O + Sync, call: impl Fn(&O, &mut Sm) -> Tree + Sync) -> Tree {
+fn triple<O: Sync>(seed: u64, mk: impl Fn() -> O + Sync, call: impl Fn(&O, &mut Sm) -> Tree + Sync) -> Tree {
     let run = |op: &O, mut rng: Sm| {
         let r: Vec<Tree> = (0..3).map(|_| call(op, &mut rng)).collect();
         tl![L(r), a(rng.next())]
@@ -56,7 +56,12 @@ fn triple<O>(seed: u64, mk: impl Fn() -> O + Sync, call: impl Fn(&O, &mut Sm) ->
     for _ in 0..5 {
         let _ = call(&used, &mut other);
     }
-    let rc = run(&used, Sm::new(seed));
+    // run C happens inside a rayon pool of three workers (runs A and B see the global pool): neither the thread nor the
+    // size of the surrounding pool may influence the outcome
+    let rc = match rayon::ThreadPoolBuilder::new().num_threads(3).build() {
+        Ok(pool) => pool.install(|| run(&used, Sm::new(seed))),
+        Err(_) => run(&used, Sm::new(seed)),
+    };
     tl![ra, rb, rc]
 }
 /// like `triple`, but the three runs use ARGUMENTS that are equal as values and differ in their allocation
@@ -146,6 +151,95 @@ fn run_op(op: usize, seed: u64, data: &[i64]) -> Option<Tree> {
         33 => triple_args(seed, || UniformXo, |m, rng, v| res(m.recombine([roomy(&g64, rooms[v].0), roomy(&g2, rooms[v].1)], rng), |c| ints(&c))),
         34 => triple_args(seed, || WithOneOverLength, |m, rng, v| bits(&m.mutate(roomy(&gb[..1.max(gb.len() % 3)], rooms[v].0 + rooms[v].1), rng).unwrap())),
         35 => triple_args(seed, || WithRate::new(0.3), |m, rng, v| bits(&m.mutate(roomy(&gb, rooms[v].0 + rooms[v].1), rng).unwrap())),
+        // LARGE collections (a parallel or blocked fill would kick in here), reported through a hash
+        40 | 41 | 42 => {
+            fn hash(it: impl Iterator<Item = u64>) -> Tree {
+                const P: u128 = (1 << 61) - 1;
+                let (mut h, mut n) = (0u128, 0u64);
+                for x in it {
+                    h = (h * 1_000_003 + u128::from(x % ((1 << 61) - 1))) % P;
+                    n += 1;
+                }
+                tl![a(n as i128), a(h as i128)]
+            }
+            let big = 20_000 + n;
+            match op {
+                40 => triple(seed, || Alpha(vec![1, 2, 3, 5, 8]).into_collection_generator(big), |g, rng| {
+                    let v: Vec<i64> = g.sample(rng);
+                    hash(v.into_iter().map(|x| x as u64))
+                }),
+                41 => triple(seed, || (), |_, rng| hash(Bitstring::random(big, rng).bits.into_iter().map(u64::from))),
+                _ => triple(
+                    seed,
+                    || {
+                        let instrs = vec![PushInstruction::push_int(1), PushInstruction::push_int(2), PushInstruction::push_bool(true)];
+                        instrs.into_distribution().unwrap().into_gene_generator().into_collection_generator(big)
+                    },
+                    |g, rng| {
+                        let p: Plushy = g.sample(rng);
+                        hash(p.get_genes().iter().map(|x| match x {
+                            PushGene::Close => 0,
+                            PushGene::Instruction(i) => instr_tree(i, &[]).map_or(99, |t| t.list().map_or(98, |l| 1 + l.iter().filter_map(Tree::int).map(|v| v.unsigned_abs() as u64 % 1000).sum::<u64>())),
+                        }))
+                    },
+                ),
+            }
+        }
+        // a Lexicase value whose PAST is the same population object with other contents (the next generation written
+        // into the same variable, same size): a fresh value must behave the same
+        43 => {
+            use ec_core::operator::selector::lexicase::Lexicase;
+            let next_gen: Pop<Score<i64>> = (0..nbig)
+                .map(|i| EcIndividual::new(i as u32, TestResults::<Score<i64>>::from(vec![(i % 3) as i64, ((i / 3) % 2) as i64])))
+                .collect();
+            let prev_gen: Pop<Score<i64>> = (0..nbig)
+                .map(|i| EcIndividual::new(i as u32, TestResults::<Score<i64>>::from(vec![((i + 1) % 2) as i64, (i % 5) as i64])))
+                .collect();
+            let cell = std::sync::RwLock::new(next_gen.clone());
+            triple_hist(
+                seed,
+                || Lexicase::new(2),
+                |other| {
+                    let sel = Lexicase::new(2);
+                    *cell.write().unwrap() = prev_gen.clone();
+                    {
+                        let p = cell.read().unwrap();
+                        for _ in 0..6 {
+                            let _ = sel.select(&*p, other);
+                        }
+                    }
+                    // the next generation replaces the contents of the SAME population object
+                    cell.write().unwrap().clone_from(&next_gen);
+                    sel
+                },
+                |sel, rng, _| {
+                    let p = cell.read().unwrap();
+                    match sel.select(&*p, rng) {
+                        Ok(r) => tl![A(0), p.iter().position(|q| std::ptr::eq(q, r)).map_or(A(-100), au)],
+                        Err(_) => tl![A(1)],
+                    }
+                },
+            )
+        }
+        // a population of 10 000 individuals in three tie classes (a blocked or parallel scan would kick in here)
+        44 | 45 | 46 => {
+            let huge: Pop<Score<i64>> = (0..10_000usize)
+                .map(|i| EcIndividual::new(i as u32, TestResults::<Score<i64>>::from(vec![(i % 3) as i64, ((i / 3) % 2) as i64])))
+                .collect();
+            let spec = match op {
+                44 => tl![A(0)],
+                45 => tl![A(1)],
+                _ => tl![A(3), A(3)],
+            };
+            let mk = || match build::<Score<i64>>(&spec) {
+                Some(Built::Sel(s)) => s,
+                _ => unreachable!(),
+            };
+            triple(seed, mk, |s, rng| match s.select(&huge, rng) {
+                Ok(r) => tl![A(0), idx(&huge, r)],
+                Err(e) => tl![A(1), a(e.0)],
+            })
+        }
         // UMAD with an empty-genome addition rate that differs from the addition rate, on empty and non-empty
         // genomes in turn; the used value met them in the opposite order
         36 => {
